@@ -104,7 +104,13 @@ class OTAFirmware:
 
     def respond_fw(self, msg):
         """Respond to a firmware request."""
-        req_fw_type, req_fw_ver, req_blk = fw_hex_to_int(msg.payload, 3)
+        try:
+            req_fw_type, req_fw_ver, req_blk = fw_hex_to_int(msg.payload, 3)
+        except (ValueError, struct.error):
+            _LOGGER.warning(
+                "Invalid firmware request from node %s: %s", msg.node_id, msg.payload
+            )
+            return None
         _LOGGER.debug(
             "Received firmware request with firmware type %s, "
             "firmware version %s, block index %s",
@@ -129,9 +135,21 @@ class OTAFirmware:
 
     def respond_fw_config(self, msg):
         """Respond to a firmware config request."""
-        (req_fw_type, req_fw_ver, req_blocks, req_crc, bloader_ver) = fw_hex_to_int(
-            msg.payload, 5
-        )
+        try:
+            (
+                req_fw_type,
+                req_fw_ver,
+                req_blocks,
+                req_crc,
+                bloader_ver,
+            ) = fw_hex_to_int(msg.payload, 5)
+        except (ValueError, struct.error):
+            _LOGGER.warning(
+                "Invalid firmware config request from node %s: %s",
+                msg.node_id,
+                msg.payload,
+            )
+            return None
         _LOGGER.debug(
             "Received firmware config request with firmware type %s, "
             "firmware version %s, %s blocks, CRC %s, bootloader %s",
